@@ -102,6 +102,15 @@ class Walk:
         p = self.rng.pick(fs + ["f1.txt", "f2.txt"])
         if who != "human":
             self.r.human_checkpoint([p])
+            others = [q for q in fs if q != p]
+            if others and self.rng.chance(1, 6):
+                # while the agent is at work the person types in another file
+                q = self.rng.pick(others)
+                ql, _nt, qk = self.mutate(self.read_lines(q), "human")
+                self.r.write(q, "".join(l + "\n" for l in ql))
+                if qk != "reindent":
+                    self.human_inplace.add(q)
+                self.log(op="edit", who="human", path=q, kind=qk + "/during-agent-run", content=ql)
         elif self.initial_unconsumed(p):
             self.tainted.add(p)
         lines, new_texts, kind = self.mutate(self.read_lines(p), who)
@@ -438,7 +447,14 @@ def replay_steps(steps):
     with e2e.Env() as env:
         w = Walk(env, 0)
         r = w.r
-        for st in steps:
+        pre_done = None
+        for k_, st in enumerate(steps):
+            if st["op"] == "edit" and str(st.get("kind", "")).endswith("/during-agent-run"):
+                # typed while the agent of the NEXT step was at work: its pre-edit checkpoint comes first
+                nxt = steps[k_ + 1] if k_ + 1 < len(steps) else None
+                if nxt and nxt["op"] == "edit" and nxt["who"] != "human":
+                    r.human_checkpoint([nxt["path"]])
+                    pre_done = k_ + 1
             if st["op"] == "base":
                 for p, lines in st["files"].items():
                     r.write(p, "".join(l + "\n" for l in lines))
@@ -448,7 +464,8 @@ def replay_steps(steps):
                 who, p = st["who"], st["path"]
                 old = set(norm(l) for l in w.read_lines(p))
                 if who != "human":
-                    r.human_checkpoint([p])
+                    if pre_done != k_:
+                        r.human_checkpoint([p])
                 elif w.initial_unconsumed(p):
                     w.tainted.add(p)
                 r.write(p, "".join(l + "\n" for l in st["content"]))
